@@ -20,8 +20,16 @@ effects do not run yet, an effect runs but is not applied yet, and so on.  This 
 
 Fleet boosts: the warfare-buff modifiers of a running boost effect are message payload (`Dyn.bspecs`, set
 by `MStep.buffset`) like the recorded targets; *which* templates the service picks from the buff attributes
-is therefore outside this layer (the specification layer `World.buffModifiers` states it; theorems that join
-the two layers carry the hypothesis that the universe has no buff effects).
+is therefore outside this layer: the specification layer `World.buffModifiers` states it.  The two layers are
+joined by `BuffPayloadOK` / `BuffSettled` (`EosProofs/Lemmas/MicroBuffTable.lean`): a dynamic state that is
+`derivedDyn` on loaded items, running effects and the targets of ordinary effects and in which, for every
+running boost, the registered modifiers are the specification's `buffModifiers` computed from the table
+`World.evalAll` and the recorded targets are the specification's `boostTargets` (or the projector has no
+projected modifier at all) has the table's entries as its from-scratch values
+(`settled_spec_eq_table_buff`, headline `C01World.world_read_eq_table_buff`; no "no buff effects"
+hypothesis).  That a real settled state is `BuffSettled` is what the correspondence check compares after
+every public call: registered payload and recorded targets of every running boost against the specification
+(driver command `QB`).
 -/
 namespace Eos.Micro
 open Eos.World Eos.Calc
